@@ -554,3 +554,20 @@ Proof.
     vm_compute; reflexivity.
 Qed.
 Print Assumptions span_requests_end_to_end.
+
+(* ---- profiles: one row per request ------------------------------------------------------------- *)
+
+(* The profile insert service appends one element per ROW to eight columns and one per REQUEST to the five array columns
+   (sample types, tags, values, functions, tree): a ProfileData request is rectangular in the shared block only when it
+   carries exactly one row.  golangPprof.go Parse yields exactly one profile per body (one append to its result, outside
+   any loop; regenerated), so Decode calls onProfile once -- and every request sent for ONE onProfile call, whatever its
+   size and however Decode ends, carries exactly one row. *)
+Theorem profile_requests_carry_one_row :
+  gen_pprof_parse_appends = 1%Z /\ gen_pprof_parse_append_in_loop = false /\
+  forall t e, forallb (N.eqb 1) (prof_batches 0 [t] e) = true.
+Proof.
+  split; [vm_compute; reflexivity|split; [vm_compute; reflexivity|]].
+  intros t e. cbn [prof_batches]. change (0 + 1)%N with 1%N.
+  destruct (MiB <? 16 + 6 * 1 + t)%N; destruct e as [|ty|]; reflexivity.
+Qed.
+Print Assumptions profile_requests_carry_one_row.
